@@ -5,6 +5,7 @@ import GdcVerif.Gen.JpegLsRun
 import GdcVerif.Model.JpegLsBits
 import GdcVerif.Model.Golomb
 import GdcVerif.Model.JpegLsRun
+import GdcVerif.Model.JpegLsScan
 /-!
   Driver ops for the JPEG-LS kernels: every op evaluates a GENERATED definition
   (`Gen/JpegLs*.lean`) — or the hand model `JpegLsBits.bitsLen` — on the arguments the real Go
@@ -165,7 +166,34 @@ def runsegDec (hx : String) (a : List Int) : String :=
     | .error f => failStr f
     | .ok (processed, p, st, _) => ok (processed :: stInts st ++ p.toList)
 
+def chunk (n : Nat) : Nat → List Int → List (Array Int)
+  | 0, _ => []
+  | f + 1, l => if l.isEmpty then [] else (l.take n).toArray :: chunk n f (l.drop n)
+
+/-- `jls-scan-enc mode comps P near width height pixels…` → `ok <entropy-coded segment>`
+    (mode 0 = jpegls/lossless, 1 = jpegls/nearlossless on the real side; one model) -/
+def scanEnc (a : List Int) : String :=
+  match a with
+  | _mode :: comps :: p :: near :: width :: height :: pixels =>
+    let t := NewTraits (2 ^ p.toNat - 1) near 64
+    match JpegLsScan.scanEncode t width comps (chunk (width * comps).toNat height.toNat pixels) with
+    | .ok bs => "ok " ++ bytesToHex bs
+    | .error f => failStr f
+  | _ => "bad-op"
+
+/-- `jls-scan-dec <scan bytes> mode comps P near width height` → `ok pixels…` -/
+def scanDec (hx : String) (a : List Int) : String :=
+  match a with
+  | [_mode, comps, p, near, width, height] =>
+    let t := NewTraits (2 ^ p.toNat - 1) near 64
+    match JpegLsScan.scanDecode t width height comps (hexToBytes hx) with
+    | .ok lines => ok (lines.flatMap (·.toList))
+    | .error f => failStr f
+  | _ => "bad-op"
+
 def step? : List String → Option String
+  | "jls-scan-dec" :: hx :: a => (ints? a).map (scanDec hx)
+  | "jls-scan-enc" :: a => (ints? a).map scanEnc
   | "jls-runseg-dec" :: hx :: a => (ints? a).map (runsegDec hx)
   | "jls-runseg-enc" :: a => (ints? a).map runsegEnc
   | "jls-dv" :: hx :: a => (ints? a).map (dv hx)
